@@ -40,9 +40,20 @@ static void rec_cls (FILE* o)
         half t = mk (0x7e00 ^ 0x0155);
         ss >> t;
         unsigned tb = ss.fail () ? 70000u : t.bits ();
-        fprintf (o, "{\"e\":\"cls\",\"h\":%u,\"fin\":%d,\"nrm\":%d,\"den\":%d,\"zer\":%d,\"nan\":%d,\"inf\":%d,\"neg\":%d,"
+        // printBits: the four overloads, lexed into 0 / 1 / 2 (space) / 9 (anything else)
+        std::string pb, pbc, pbf, pbfc;
+        {
+            auto lex = [] (const std::string& txt) { std::string r = "["; for (size_t i = 0; i < txt.size (); ++i) { char ch = txt[i]; r += (i ? "," : ""); r += (ch == '0' ? "0" : ch == '1' ? "1" : ch == ' ' ? "2" : "9"); } return r + "]"; };
+            std::ostringstream a; printBits (a, h); pb = lex (a.str ());
+            char c19[19]; memset (c19, 'x', sizeof c19); printBits (c19, h); pbc = lex (std::string (c19, strnlen (c19, 19)));
+            std::ostringstream b2; printBits (b2, f); pbf = lex (b2.str ());
+            char c35[35]; memset (c35, 'x', sizeof c35); printBits (c35, f); pbfc = lex (std::string (c35, strnlen (c35, 35)));
+        }
+        uint32_t fw; memcpy (&fw, &f, 4);
+        fprintf (o, "{\"e\":\"cls\",\"pb\":%s,\"pbc\":%s,\"pbf\":%s,\"pbfc\":%s,\"fw\":[%u,%u],\"h\":%u,", pb.c_str (), pbc.c_str (), pbf.c_str (), pbfc.c_str (), fw >> 16, fw & 0xffffu, b);
+        fprintf (o, "\"fin\":%d,\"nrm\":%d,\"den\":%d,\"zer\":%d,\"nan\":%d,\"inf\":%d,\"neg\":%d,"
                     "\"fpc\":\"%s\",\"fsb\":%d,\"negbits\":%u,\"text\":%u}\n",
-                 b, (int) h.isFinite (), (int) h.isNormalized (), (int) h.isDenormalized (), (int) h.isZero (),
+                 (int) h.isFinite (), (int) h.isNormalized (), (int) h.isDenormalized (), (int) h.isZero (),
                  (int) h.isNan (), (int) h.isInfinity (), (int) h.isNegative (), fpc (f), (int) std::signbit (f),
                  (unsigned) n.bits (), tb);
     }
